@@ -420,6 +420,7 @@ fn judge_e2e(acc: &mut Acc, iface: &IfaceDesc, h: u16, tys: &[Ty], lits: &[LitCa
     }
     acc.res.evaluations += 1;
     let got = streams(&out.log);
+    acc.res.sample(|| J::obj(vec![("input", J::s(esc(&input[..input.len().min(200)]))), ("declared", J::strs(tys.iter().map(|t| t.name().to_string()))), ("observed", J::strs(got.show()))]));
     let calls: Vec<&Sem> = got.ce.iter().filter(|s| matches!(s, Sem::Call { .. })).collect();
     let errs: Vec<i16> = got.ce.iter().filter_map(|s| if let Sem::Err { num, .. } = s { Some(*num) } else { None }).collect();
     for e in &errs {
@@ -891,7 +892,9 @@ pub fn run(ctx: &Ctx) -> PropResult {
     res.cov("literals_by_kind", J::Obj(by_kind.into_iter().map(|(k, v)| (k.to_string(), J::Int(v as i64))).collect()));
     res.cov("error_numbers_observed", J::Obj(errs.into_iter().map(|(k, v)| (k.to_string(), J::Int(v as i64))).collect()));
     res.cov("float_conversions_logged_for_exact_check", floatlog.len());
-    res.samples = vec![J::s("P:I8 -129  -> one -120, no call"), J::s("P:U16 #B1111111111111111 -> U16(65535)"), J::s("P:F32 1.00000017881393432617187500000000000000000000000000000 (an f32 midpoint)")];
+    res.samples.truncate(5);
+    let described: Vec<J> = vec![J::s("P:I8 -129  -> one -120, no call"), J::s("P:U16 #B1111111111111111 -> U16(65535)"), J::s("P:F32 1.00000017881393432617187500000000000000000000000000000 (an f32 midpoint)")];
+    res.samples.extend(described.into_iter().take(1));
     res.assumptions = vec![
         "where the statement is silent both outcomes are accepted: -0 to unsigned, reals to integer parameters, On/TRUE/01 to bool, overflowing reals (inf or -120), #H literals to real parameters, strings/blocks to bool (-104 or -224)".into(),
         "in-process the delivered float is compared with core's str::parse of the literal; exactness of a sample is re-checked with rationals offline (pyoracle/round.py)".into(),
